@@ -622,4 +622,33 @@ open Jinns.Holds in
 example : legalCfg exCfg 3 4 2 2 1 false = true ∧ rejectedCheck (legalCfg exCfg 3 4 2 2 1 false) =
     some "valid-configuration-rejected" := by decide
 
+/-! ### resumed runs: the counting clauses are a weakening of `Holds.C16` -/
+
+theorem c16StepCounts_of_step {c : Cfg} {i J J' : Nat} {r : Jinns.Holds.Rec16}
+    (h : Jinns.Holds.c16Step c i J r = .ok J') : Jinns.Holds.c16StepCounts c J r = .ok J' := by
+  unfold Jinns.Holds.c16Step at h
+  unfold Jinns.Holds.c16StepCounts
+  grind
+
+theorem c16ScanCounts_of_scan (c : Cfg) (tr : List Jinns.Holds.Rec16) :
+    ∀ i J, Jinns.Holds.c16Scan c i J tr = none → Jinns.Holds.c16ScanCounts c J tr = none := by
+  induction tr with
+  | nil => intro _ _ _; rfl
+  | cons r rs ih =>
+    intro i J h
+    unfold Jinns.Holds.c16Scan at h
+    unfold Jinns.Holds.c16ScanCounts
+    cases hs : Jinns.Holds.c16Step c i J r with
+    | error e => rw [hs] at h; exact absurd h (by simp)
+    | ok J' =>
+      rw [hs] at h
+      rw [c16StepCounts_of_step hs]
+      exact ih _ _ h
+
+/-- **every run that satisfies `Holds.C16` satisfies the counting clauses from any point on**, in
+    particular the model's (by `model_trace_holds`): `holdsC16Resumed` asks nothing the property does not -/
+theorem holdsC16Resumed_of_holds (c : Cfg) (tr : List Jinns.Holds.Rec16)
+    (h : Jinns.Holds.holdsC16 c tr = none) : Jinns.Holds.holdsC16Resumed c 0 tr = none :=
+  c16ScanCounts_of_scan c tr 0 0 h
+
 end Jinns.Rar
